@@ -1,1 +1,67 @@
 //! Verification wrappers for this component (data-only re-exports of crate-private items).
+//!
+//! `BPlusTree::verif_page_accounting` (implemented in `btree_pages.rs`, which is
+//! compiled as a child module of `bplustree::tree` so that it can read the
+//! private page structures) walks the tree file and reports, as plain data,
+//! where every page of the file is referenced from. It never writes.
+
+/// One B+tree node (internal or leaf) as found by the walk.
+#[derive(Debug, Clone, Default)]
+pub struct NodeInfo {
+	/// page number (offset / PAGE_SIZE)
+	pub page: u64,
+	/// tree level, root = 1
+	pub level: u32,
+	pub is_leaf: bool,
+	/// serialized size the node reports for itself (`current_size()`)
+	pub size: u32,
+	/// length of every key in the node
+	pub key_lens: Vec<u32>,
+	/// FNV-1a (64 bit) of every key's bytes, so that a harness can tell which key is where
+	pub key_hashes: Vec<u64>,
+	/// leaf only: length of every value
+	pub val_lens: Vec<u32>,
+	/// internal only: child page numbers
+	pub children: Vec<u64>,
+	/// per key / cell: page numbers of its overflow chain (empty = none)
+	pub chains: Vec<Vec<u64>>,
+	/// leaf only: sibling links (page numbers, 0 = none)
+	pub next: u64,
+	pub prev: u64,
+}
+
+/// Where the pages of the file are referenced from.
+#[derive(Debug, Clone, Default)]
+pub struct PageAccounting {
+	pub page_size: u64,
+	pub file_size: u64,
+	// header fields
+	pub total_pages: u64,
+	pub root: u64,
+	pub first_leaf: u64,
+	pub trunk_head: u64,
+	pub free_page_count: u64,
+	/// nodes reachable from the root, depth first, children left to right
+	/// (a page referenced twice is listed twice, but expanded once)
+	pub nodes: Vec<NodeInfo>,
+	/// leaf pages met by following `next` links from `first_leaf`
+	pub leaf_chain: Vec<u64>,
+	/// trunk pages of the free list, in list order
+	pub trunks: Vec<u64>,
+	/// number of entries of each trunk page (same order as `trunks`)
+	pub trunk_fill: Vec<u32>,
+	/// page numbers stored in the trunk pages
+	pub free_entries: Vec<u64>,
+	/// anything that could not be read / decoded during the walk
+	pub problems: Vec<String>,
+}
+
+/// FNV-1a, 64 bit.
+pub fn fnv1a(b: &[u8]) -> u64 {
+	let mut h: u64 = 0xcbf29ce484222325;
+	for &x in b {
+		h ^= x as u64;
+		h = h.wrapping_mul(0x100000001b3);
+	}
+	h
+}
